@@ -117,6 +117,18 @@ def unit_plan(ndim):
                 e = wr.get(i)
                 ctx.holds("%s plan->dims[%d] = dims[%d]" % (tag, i, i), e is not None and not e.guards and tm.lift(e.val) is dimsym(i), "%r" % (e,), fq, replay=replay_plan(ndim, fwd, r2c, inplace, bf))
             ctx.holds("%s plan->dims has exactly ndim entries written" % tag, sorted(wr) == list(range(ndim)), str(sorted(wr)), fq)
+            # capacity of the plan's own dims array: malloc(ndim * sizeof(int)) or a member array of fixed capacity
+            if isinstance(dp, Ptr):
+                cap_ = None
+                if dp.arr.extent is not None and tm.lift(dp.arr.extent).op == "c":
+                    cap_ = int(tm.lift(dp.arr.extent).args[0])
+                elif isinstance(getattr(dp.arr, "bytes", None), int):
+                    cap_ = dp.arr.bytes // 4
+                if cap_ is None:
+                    ctx.undecided("%s capacity of plan->dims" % tag, "allocation size %r is not a constant for this rank" % (getattr(dp.arr, "bytes", None),), fq)
+                else:
+                    ctx.holds("%s every write to plan->dims is inside its capacity (%d entries)" % (tag, cap_), all(0 <= i < cap_ for i in wr),
+                              "indices written %s" % sorted(wr), fq, witness={"ndim": ndim, "capacity": cap_}, replay=replay_plan(ndim, fwd, r2c, inplace, bf))
             # planner call
             inb, outb = Ptr(Arr("in_array", "double")), Ptr(Arr("out_array", "double"))
             try:
